@@ -383,7 +383,8 @@ impl PrivateBatchProver {
 /// this only improves failure latency and error quality.
 fn ensure_leaf_batch_compatible(proofs: &[ProofWithPublicInputs<F, C, D>]) -> Result<()> {
     use crate::private_batch::circuit::constants::{
-        ASSET_ID_START, BLOCK_HASH_START, NULLIFIER_START, VOLUME_FEE_BPS_START,
+        ASSET_ID_START, BLOCK_HASH_START, EXIT_1_START, EXIT_2_START, NULLIFIER_START,
+        OUTPUT_AMOUNT_1_START, OUTPUT_AMOUNT_2_START, VOLUME_FEE_BPS_START,
     };
     use std::collections::HashMap;
 
@@ -467,6 +468,38 @@ fn ensure_leaf_batch_compatible(proofs: &[ProofWithPublicInputs<F, C, D>]) -> Re
             "every supplied leaf proof is all-dummy (block_hash == 0): such a batch \
              settles nothing; supply at least one real leaf proof"
         );
+    }
+
+    // Grouped exit sums: the circuit adds the output amounts of every real
+    // slot paying the same exit account and range-checks each group sum to
+    // 32 bits. Mirror that bound here so a batch whose individual amounts fit
+    // in u32 but whose per-account total does not is rejected at commit time
+    // instead of failing inside the recursive proving run.
+    let mut exit_sums: HashMap<[u64; 4], u128> = HashMap::new();
+    for proof in proofs {
+        let pis = &proof.public_inputs;
+        let block_hash: [u64; 4] =
+            core::array::from_fn(|i| pis[BLOCK_HASH_START + i].to_canonical_u64());
+        if block_hash == [0u64; 4] {
+            continue; // dummy slots are masked out of the exit grouping
+        }
+        for (account_start, amount_start) in [
+            (EXIT_1_START, OUTPUT_AMOUNT_1_START),
+            (EXIT_2_START, OUTPUT_AMOUNT_2_START),
+        ] {
+            let account: [u64; 4] =
+                core::array::from_fn(|i| pis[account_start + i].to_canonical_u64());
+            let sum = exit_sums.entry(account).or_insert(0);
+            *sum += pis[amount_start].to_canonical_u64() as u128;
+            if *sum > u32::MAX as u128 {
+                bail!(
+                    "the real leaf proofs pay a total of {} to one exit account, which \
+                     exceeds the 32-bit bound the private-batch circuit enforces on every \
+                     grouped exit sum",
+                    sum
+                );
+            }
+        }
     }
     Ok(())
 }
